@@ -225,7 +225,11 @@ func runPARSLICE(c *Ctx) {
 								if aj == ai {
 									sig += "_,"
 								} else if bt, ok := o.Type().Underlying().(*types.Basic); ok && bt.Info()&types.IsInteger != 0 {
-									sig += pathDesc(ir.Sym(o)) + ","
+									// a measure of the list itself (cap(node.Key) next to node.Key) is the same
+									// "bound" for both lists: name the list neutrally
+									d := pathDesc(ir.Sym(o))
+									d = strings.ReplaceAll(d, "."+f+")", ".·)")
+									sig += d + ","
 								} else {
 									sig += "·,"
 								}
@@ -747,6 +751,8 @@ func runGROWSHRINK(c *Ctx) {
 	// `return true` of the predicate that guards it, is reached without a further test
 	sufficient := func(holder *ssa.Function, tcall ssa.Instruction) []ir.Fact {
 		var out []ir.Fact
+		// cameFrom: on the straight line being followed, the predecessor each block was entered from (to read φs)
+		var cameFrom map[*ssa.BasicBlock]*ssa.BasicBlock
 		scan := func(fn *ssa.Function, goal func(b *ssa.BasicBlock, from *ssa.BasicBlock) bool) {
 			for _, b := range fn.Blocks {
 				if len(b.Instrs) == 0 || ir.IsDead(b) {
@@ -758,8 +764,10 @@ func runGROWSHRINK(c *Ctx) {
 				}
 				for i, sb := range b.Succs {
 					prev := b
+					cameFrom = map[*ssa.BasicBlock]*ssa.BasicBlock{sb: prev}
 					for n := 0; !goal(sb, prev) && len(sb.Succs) == 1 && n < 8; n++ {
 						prev, sb = sb, sb.Succs[0]
+						cameFrom[sb] = prev
 					}
 					if goal(sb, prev) {
 						out = append(out, ir.Fact{Cond: iff.Cond, Truth: i == 0, From: b})
@@ -782,16 +790,53 @@ func runGROWSHRINK(c *Ctx) {
 					return false
 				}
 				rv := r.Results[0]
-				if phi, isPhi := rv.(*ssa.Phi); isPhi && phi.Block() == b {
-					for pi, p := range b.Preds {
-						if p == from {
-							rv = phi.Edges[pi]
+				// `a && (b || c)` is a φ of φs: each is read on the edge the straight line came in by
+				for d := 0; d < 4; d++ {
+					phi, isPhi := rv.(*ssa.Phi)
+					if !isPhi {
+						break
+					}
+					pb := phi.Block()
+					fr := cameFrom[pb]
+					if pb == b {
+						fr = from
+					}
+					next := ssa.Value(nil)
+					for pi, p := range pb.Preds {
+						if p == fr {
+							next = phi.Edges[pi]
 						}
 					}
+					if next == nil {
+						break
+					}
+					rv = next
 				}
 				v, isC := ir.ConstBool(ir.ResolveCell(rv))
 				return isC && v
 			})
+			// an alternative that is returned as a value rather than branched on (`… || m.rootIsKeyless()`): the
+			// non-constant leaves of the φ tree the predicate returns
+			var leaves func(v ssa.Value, from *ssa.BasicBlock, d int)
+			leaves = func(v ssa.Value, from *ssa.BasicBlock, d int) {
+				if phi, ok := v.(*ssa.Phi); ok && d < 4 {
+					for pi, e := range phi.Edges {
+						leaves(e, phi.Block().Preds[pi], d+1)
+					}
+					return
+				}
+				if _, isC := ir.ConstBool(ir.ResolveCell(v)); isC || from == nil {
+					return
+				}
+				out = append(out, ir.Fact{Cond: v, Truth: true, From: from})
+			}
+			for _, r := range ir.Returns(h) {
+				if len(r.Results) > 0 {
+					if _, isPhi := r.Results[0].(*ssa.Phi); isPhi {
+						leaves(r.Results[0], nil, 0)
+					}
+				}
+			}
 		}
 		return out
 	}
@@ -1068,6 +1113,49 @@ func runGROWSHRINK(c *Ctx) {
 		}
 		return false, ""
 	}
+	// (4) growth is decided by the size and by the root's keys — nothing else. Every test inside the loop that the
+	// level-adding call depends on is the size test, the key test, an error test or a diagnostic switch; a further
+	// conjunct (a memo of "the highest layer seen", a flag) keeps a tree lower than the same entries inserted afresh.
+	if holder, tcs := holderOf(ins, grow); holder != nil {
+		tcall := tcs.(ssa.Instruction)
+		for _, f := range ir.FactsAt(tcall.Block()) {
+			if f.From == nil || f.From.Parent() != holder || !inCycle(f.From) {
+				continue
+			}
+			cond := f.Cond
+			for {
+				u, ok := cond.(*ssa.UnOp)
+				if !ok || u.Op != token.NOT {
+					break
+				}
+				cond = u.X
+			}
+			kind := ""
+			if _, _, isNil := ir.NilTest(cond); isNil {
+				kind = "an error / nil test"
+			} else if v, known := debugCond(cond); known || v {
+				kind = "a diagnostic switch"
+			} else if bin, ok := cond.(*ssa.BinOp); ok {
+				sz := func(v ssa.Value) bool { return mastFieldLoad(v, "size") }
+				th := func(v ssa.Value) bool { return mastFieldLoad(v, "growAfterSize") }
+				if (sz(bin.X) && th(bin.Y)) || (sz(bin.Y) && th(bin.X)) {
+					kind = "the size test"
+				}
+			}
+			if kind == "" {
+				if h := predicate(cond); h != nil && measuresKeys(c, h, 0) {
+					kind = "the key test"
+				}
+			}
+			pos := P.InstrPos(f.From.Instrs[len(f.From.Instrs)-1])
+			if kind != "" {
+				c.OK(pos, "growth loop test "+pathDesc(ir.Sym(cond)), kind, true)
+				continue
+			}
+			c.Violation(ins, pos, "growth conditioned on something besides size and root keys",
+				"the level-adding call also depends on "+pathDesc(ir.Sym(cond))+": the height rule is min(highest key layer, size rule), decided from the size and the root's keys alone — an extra condition (a remembered maximum layer, a flag) that a reloaded or differently built tree does not share leaves equal contents at different heights, hence under different roots")
+		}
+	}
 	// (3) what the shrink loop asks about the root's keys is "are there none": among the outcomes that are sufficient
 	// for the level-removing call, the one that looks at the number of keys holds only when that number is 0
 	if holder, tcs := holderOf(del, shrink); holder != nil {
@@ -1154,4 +1242,47 @@ func runGROWSHRINK(c *Ctx) {
 		c.Violation(del, P.Pos(del.Pos()), "shrinking decided by size alone",
 			"Insert raises the height only when a root key belongs higher (height = min(highest key layer, size rule)), but Delete lowers it only by size: after the last key of the top layer is deleted the tree keeps a key-less root and its height, while a tree built from the same entries is one level lower — equal contents, different roots")
 	}
+}
+
+func firstCallOf(v ssa.Value) ssa.CallInstruction {
+	switch x := v.(type) {
+	case *ssa.Call:
+		return x
+	case *ssa.Extract:
+		if c, ok := x.Tuple.(*ssa.Call); ok {
+			return c
+		}
+	}
+	return nil
+}
+
+// measuresKeys: h (or a repository function it calls, two levels down) ranges over, measures or reads a node's Key list.
+func measuresKeys(c *Ctx, h *ssa.Function, d int) bool {
+	if h == nil || h.Blocks == nil || d > 2 {
+		return false
+	}
+	for _, b := range h.Blocks {
+		for _, in := range b.Instrs {
+			switch y := in.(type) {
+			case *ssa.Range:
+				if _, fld, ok := nodeSliceRoot(y.X); ok && fld == "Key" {
+					return true
+				}
+			case *ssa.IndexAddr:
+				if _, fld, ok := nodeSliceRoot(y.X); ok && fld == "Key" {
+					return true
+				}
+			case *ssa.Call:
+				if bi, ok := y.Call.Value.(*ssa.Builtin); ok && bi.Name() == "len" {
+					if _, fld, ok := nodeSliceRoot(y.Call.Args[0]); ok && fld == "Key" {
+						return true
+					}
+				}
+				if g := ir.Callee(y.Call); g != nil && isOwn(c.P, g) && measuresKeys(c, g, d+1) {
+					return true
+				}
+			}
+		}
+	}
+	return false
 }
